@@ -94,6 +94,9 @@ type Input struct {
 	RngSeed int64 `json:"rng_seed"`
 	// SetHasher histories: DefaultFamily is installed with merklize.SetHasher BEFORE the merklizer is
 	// built (0 = Poseidon); SetAfter-1 is installed AFTER it is built and before any query (0 = none)
+	// MustResolve: every DocPath / FieldPath names a leaf of the document: the resolvers must succeed
+	// and the resolved path must have an existence proof
+	MustResolve bool `json:"must_resolve,omitempty"`
 	DefaultFamily int `json:"default_family,omitempty"`
 	SetAfter      int `json:"set_after,omitempty"`
 }
@@ -383,6 +386,98 @@ func (e *Env) primeCheck(s *Scen) {
 	if got := s.Rc.Inner.Prime(); got.Cmp(want) != 0 {
 		e.Rep.Fail(e.Prop+"-hasher-prime-mutated", fmt.Sprintf("the configured hasher's modulus changed from %v to %v while values were encoded", want, got), s.In)
 	}
+}
+
+// ResolvedLeaf: a path one of the resolvers produced for a document path.  With MustResolve the
+// resolver must succeed and (leaf = true) the path must have an existence proof.
+func (e *Env) ResolvedLeaf(s *Scen, pk int, api, arg string, p merklize.Path, err error, leaf bool) {
+	in := map[string]any{"scenario": s.In, "api": api, "arg": arg}
+	if err != nil {
+		e.Rep.Count("resolver-error:" + api)
+		if s.In.MustResolve {
+			e.Rep.Fail(e.Prop+"-leaf-not-resolvable", fmt.Sprintf("%s(%q) fails for a leaf of the document: %v", api, arg, err), in)
+		}
+		return
+	}
+	if s.In.MustResolve {
+		if k, kerr := p.MtEntry(); leaf && kerr == nil {
+			if _, ok := s.Members[k.String()]; !ok {
+				e.Rep.Fail(e.Prop+"-resolved-leaf-not-provable", fmt.Sprintf("%s(%q) = %v is not the path of any entry: the leaf has no existence proof", api, arg, p.Parts()), in)
+			}
+		}
+	}
+	if leaf {
+		e.ProofPath(s, pk, p, "resolved-doc-path")
+	} else {
+		e.PathObjKeyStep(s, pk, p)
+	}
+}
+
+// FixedInputs: hand-written documents whose every listed path is a leaf.  (1) terms that START with a
+// digit (they are terms, not array indices) next to real array indices; (2) a node with two types whose
+// earlier-sorting type's scoped context re-declares the other type's term with another scoped context
+// (JSON-LD: every type-scoped context is looked up in the context active BEFORE any of them applied).
+func FixedInputs(hasher int, cfg bool, rng *rand.Rand) []Input {
+	x := "http://www.w3.org/2001/XMLSchema#"
+	v := docgen.Vocab
+	ctx1 := map[string]any{"@version": 1.1,
+		"Acct": map[string]any{"@id": v + "Acct", "@context": map[string]any{
+			"2faEnabled": map[string]any{"@id": v + "2faEnabled", "@type": x + "boolean"},
+			"3dsVersion": map[string]any{"@id": v + "3dsVersion", "@type": x + "string"},
+			"4codes":     map[string]any{"@id": v + "4codes", "@type": x + "integer"},
+			"7seas": map[string]any{"@id": v + "7seas", "@context": map[string]any{
+				"1stMate": map[string]any{"@id": v + "1stMate", "@type": x + "string"},
+				"9lives":  map[string]any{"@id": v + "9lives", "@type": x + "integer"}}},
+		}}}
+	doc1 := map[string]any{"@context": ctx1, "@id": "urn:acct:1", "@type": "Acct",
+		"2faEnabled": true, "3dsVersion": "2.1.0", "4codes": []any{11, 22, 33},
+		"7seas": map[string]any{"1stMate": "Smee", "9lives": 9}}
+	b1, _ := json.Marshal(doc1)
+	c1, _ := json.Marshal(map[string]any{"@context": ctx1})
+	in1 := Input{Doc: b1, Hasher: hasher, Cfg: cfg, RngSeed: rng.Int63(), MustResolve: true,
+		DocPaths: []string{"2faEnabled", "3dsVersion", "4codes.0", "4codes.2", "7seas.1stMate", "7seas.9lives"},
+		CtxBytes: c1, TypeTerm: "Acct", FieldPaths: []string{"2faEnabled", "3dsVersion", "7seas.1stMate", "7seas.9lives"}}
+	doc2 := `{"@context": {"@version": 1.1,
+  "title": {"@id": "` + v + `title", "@type": "` + x + `string"},
+  "staff": {"@id": "` + v + `staff"},
+  "Person": {"@id": "` + v + `Person", "@context": {"name": {"@id": "` + v + `personName", "@type": "` + x + `string"}}},
+  "Employee": {"@id": "` + v + `Employee", "@context": {
+      "badge": {"@id": "` + v + `badge", "@type": "` + x + `integer"},
+      "Person": {"@id": "` + v + `ContactPerson", "@context": {"name": {"@id": "` + v + `contactName", "@type": "` + x + `string"}}}}}},
+ "@id": "urn:org:acme", "title": "ACME",
+ "staff": {"@id": "urn:org:alice", "@type": ["Employee", "Person"], "name": "Alice", "badge": 7}}`
+	in2 := Input{Doc: []byte(doc2), Hasher: hasher, Cfg: cfg, RngSeed: rng.Int63(), MustResolve: true,
+		DocPaths: []string{"title", "staff.name", "staff.badge"}}
+	if !cfg {
+		in1.Hasher, in2.Hasher = 0, 0
+	}
+	return []Input{in1, in2}
+}
+
+// HVCase: one standalone merklize.HashValueWithHasher(h, datatype, value) call (integers only: no
+// primitive hash is involved, the model needs the hasher's prime alone).
+type HVCase struct {
+	In  map[string]any
+	H   *hashers.Recorder
+	DT  string
+	V   any // string | int64
+	Out *big.Int
+}
+
+func (c *HVCase) ReplayInput() any { return c.In }
+func (c *HVCase) Coq(f *coqgen.File, id int) string {
+	v := ""
+	switch x := c.V.(type) {
+	case string:
+		v = "RGStr " + f.Str(x)
+	case int64:
+		v = "RGInt " + coqgen.SNumI(x)
+	}
+	o := "VErr"
+	if c.Out != nil {
+		o = "(VOk " + coqgen.Limbs(c.Out) + ")"
+	}
+	return fmt.Sprintf("mkv %d %s (mkrf [] [] []) %s (%s) %s", id, RhCoq(c.H, f), f.Str(c.DT), v, o)
 }
 
 // ArgSliceChecks: several Paths built from ONE argument slice that the caller keeps mutating
@@ -1294,11 +1389,19 @@ func (e *Env) c02Scenario(in Input) *Scen {
 	}
 	// paths the merklizer resolves from the document itself
 	for _, dp := range in.DocPaths {
-		if p, err := s.Mz.ResolveDocPath(dp); err == nil {
-			e.ProofPath(s, 5, p, "resolved-doc-path")
+		p, err := s.Mz.ResolveDocPath(dp)
+		e.ResolvedLeaf(s, 5, "Merklizer.ResolveDocPath", dp, p, err, true)
+		if in.MustResolve || e.Cfg.Rng.Intn(2) == 0 {
+			p, err = s.Mz.Options().NewPathFromDocument(in.Doc, dp)
+			e.ResolvedLeaf(s, 4, "Options.NewPathFromDocument", dp, p, err, true)
 		}
-		if p, err := s.Mz.Options().NewPathFromDocument(in.Doc, dp); err == nil && e.Cfg.Rng.Intn(2) == 0 {
-			e.ProofPath(s, 4, p, "resolved-doc-path")
+	}
+	if len(in.CtxBytes) > 0 && in.TypeTerm != "" {
+		for _, fp := range in.FieldPaths {
+			p, err := s.Mz.Options().FieldPathFromContext(in.CtxBytes, in.TypeTerm, fp)
+			e.ResolvedLeaf(s, 3, "Options.FieldPathFromContext", in.TypeTerm+" / "+fp, p, err, true)
+			p, err = s.Mz.Options().PathFromContext(in.CtxBytes, in.TypeTerm+"."+fp)
+			e.ResolvedLeaf(s, 2, "Options.PathFromContext", in.TypeTerm+"."+fp, p, err, false)
 		}
 	}
 	// the empty path: its key cannot be computed
@@ -1468,6 +1571,18 @@ func Run(cfg *common.Config) (*common.Report, error) {
 			}
 		}
 		sh.Add(s)
+	}
+	// hand-written documents whose listed paths are all leaves (digit-leading terms, re-declared type term)
+	for i, hi := range []int{0, 1, 5} {
+		for _, in := range FixedInputs(hi, i > 0, cfg.Rng) {
+			rep.Distinct(fmt.Sprintf("fixed|%s|%d|%v", in.Doc, in.Hasher, in.Cfg))
+			rep.Count("fixed-document")
+			s := e.c02Scenario(in)
+			if s.Out.Class != "ok" {
+				rep.Fail("c02-valid-rejected", "hand-written valid document rejected: "+s.Out.Msg, in)
+			}
+			sh.Add(s)
+		}
 	}
 	// shared caller-provided tree: two or three merklizers, growth between Root() / Proof calls
 	for i := 0; i < cfg.Pick(12, 150); i++ {
